@@ -5325,7 +5325,7 @@ class Device(utils.CompositeEventEmitter):
                     connection_handle=connection.handle
                 )
             )
-            return await read_feature_future
+            return await connection.cancel_on_disconnection(read_feature_future)
 
     async def get_remote_classic_features(
         self, connection: Connection
@@ -5379,7 +5379,9 @@ class Device(utils.CompositeEventEmitter):
                 )
             )
 
-            new_features, max_page_number = await read_feature_future
+            new_features, max_page_number = await connection.cancel_on_disconnection(
+                read_feature_future
+            )
             read_features |= new_features
             if not (read_features & hci.LmpFeatureMask.EXTENDED_FEATURES):
                 return read_features
@@ -5392,7 +5394,9 @@ class Device(utils.CompositeEventEmitter):
                         page_number=current_page_number,
                     )
                 )
-                new_features, max_page_number = await read_feature_future
+                new_features, max_page_number = (
+                    await connection.cancel_on_disconnection(read_feature_future)
+                )
                 read_features |= new_features << (current_page_number * 64)
                 current_page_number += 1
 
